@@ -138,6 +138,9 @@ def add_structural_streams(env, ctx, res) -> None:
         'sy3_a1_enc': restructure((fx / 'bbb_a1_enc.mp4').read_bytes(), plain_base=True,
                                   senc_override=override('bbb_a1_enc.mp4')),
     }
+    for name in ('sy3_a1', 'sy3_a1_enc'):
+        # (the fixture ends with an empty styp+sidx pair after the last mdat: not part of any segment)
+        files[name] = files[name][:ib.index_file(files[name]).segments[-1].end]
     for name, data in files.items():
         assert len(ib.index_file(data).segments) == 10, name
     spk = env.add_stream('sy3', title='Synthetic: plain tfhd base, senc override fields', files=files)
@@ -158,8 +161,6 @@ def add_structural_streams(env, ctx, res) -> None:
             for seg, st in zip(rep['segments'][1:], sf.segments):
                 assert st.first_box == 'styp', st.first_box
                 seg['pos'], seg['size'] = st.start, st.end - st.start
-            # (the fixture ends with an empty styp+sidx pair: it stays with the last segment)
-            rep['segments'][-1]['size'] = len(files[mf.name]) - rep['segments'][-1]['pos']
             mf.rep = rep
         env.models.db.session.commit()
         env.models.db.session.remove()
